@@ -11,6 +11,15 @@ package lib
 // fault and no SetDeadline failure was injected, everything returned by the reads that were performed
 // arrived (bytes that came with an error/EOF included); the byte count in tunnelStats equals the bytes
 // accepted; both connections closed; the wait group released exactly once; no goroutine left.
+//
+// Error values: every class generalizeErr tells apart is injected through several real members that
+// differ in what net.Error's Timeout() and Temporary() answer (os.ErrDeadlineExceeded bare and inside a
+// *net.OpError, *net.OpError over EAGAIN / ETIMEDOUT / EINTR / ECONNRESET …, custom net.Error values with
+// each of the four Timeout/Temporary combinations), one-shot and **persistent** (`!`: the connection
+// answers every later call with the same error, as a connection whose deadline has passed does until the
+// deadline is moved).  A direction that keeps calling a connection that fails every call is stopped by a
+// call-count watchdog in the scripted connection and reported as a hang (the call never returns, nothing
+// is torn down) with the script as replay.
 
 import (
 	"bytes"
@@ -66,7 +75,23 @@ func c05Err(code, op string) error {
 	case code == "unreach":
 		return sys(syscall.EHOSTUNREACH)
 	case code == "timeout":
-		return &net.OpError{Op: op, Net: "tcp", Err: os.ErrDeadlineExceeded}
+		return &net.OpError{Op: op, Net: "tcp", Err: os.ErrDeadlineExceeded} // Timeout() and Temporary() both true
+	case code == "dlx":
+		return os.ErrDeadlineExceeded // as a wrapping connection may pass it on; Timeout() and Temporary() true
+	case code == "eagain":
+		return sys(syscall.EAGAIN) // Timeout() true, Temporary() true
+	case code == "etimedout":
+		return sys(syscall.ETIMEDOUT) // Timeout() true, Temporary() true
+	case code == "net.tt":
+		return &vcNetErr{"deadline passed", true, true}
+	case code == "net.tf":
+		return &vcNetErr{"deadline passed", true, false}
+	case code == "eintr":
+		return sys(syscall.EINTR) // Timeout() false, Temporary() true
+	case code == "net.ft":
+		return &vcNetErr{"link flapping", false, true}
+	case code == "net.ff":
+		return &vcNetErr{"link down", false, false}
 	case code == "short":
 		return io.ErrShortWrite
 	case strings.HasPrefix(code, "o."):
@@ -103,11 +128,19 @@ type c05Read struct {
 	claim int    // > 0: the reader claims this many bytes (non-conforming reader, > len(buf))
 	block bool   // Proxy scenarios: wait until the connection is closed, then answer `closed`
 	waitGot int  // Proxy scenarios (duplex): wait until this connection has accepted that many bytes
+	sticky bool  // the error persists: every later Read answers (0, the same error)
 }
 type c05Write struct {
 	accept int
 	err    string
+	sticky bool // the error persists: every later Write answers (0, the same error)
 }
+
+// c05Hang is what a scripted connection panics with when a direction keeps calling it although it has
+// failed every call for c05SpinLimit calls in a row: halfPipe would never return.
+type c05Hang struct{ what string }
+
+const c05SpinLimit = 1000
 type c05Script struct {
 	up       bool
 	reads    []c05Read
@@ -129,10 +162,17 @@ func (s *c05Script) fields() string {
 		if r.block {
 			e = "closed"
 		}
+		if r.sticky && e != "-" {
+			e += "!"
+		}
 		rs = append(rs, vlib.Hex(d)+":"+e)
 	}
 	for _, w := range s.writes {
-		ws = append(ws, fmt.Sprintf("%d:%s", w.accept, w.err))
+		e := w.err
+		if w.sticky && e != "-" {
+			e += "!"
+		}
+		ws = append(ws, fmt.Sprintf("%d:%s", w.accept, e))
 	}
 	ds = append(ds, s.dls...)
 	return strings.Join(rs, ";") + "|" + strings.Join(ws, ";") + "|" + strings.Join(ds, ",") + "|" + s.srcClose + "|" + s.dstClose
@@ -158,7 +198,7 @@ func c05ParseFields(f []string) (*c05Script, error) {
 					return nil, err
 				}
 			}
-			r := c05Read{data: d, err: p[1]}
+			r := c05Read{data: d, err: strings.TrimSuffix(p[1], "!"), sticky: strings.HasSuffix(p[1], "!")}
 			if len(d) > 32*1024 {
 				r.claim = len(d)
 			}
@@ -175,7 +215,7 @@ func c05ParseFields(f []string) (*c05Script, error) {
 			if err != nil {
 				return nil, err
 			}
-			s.writes = append(s.writes, c05Write{n, p[1]})
+			s.writes = append(s.writes, c05Write{n, strings.TrimSuffix(p[1], "!"), strings.HasSuffix(p[1], "!")})
 		}
 	}
 	if f[2] != "" {
@@ -227,6 +267,9 @@ type c05Conn struct {
 	pendingFB  string // the SetDeadline just answered ENOTSUP: result the SetReadDeadline fallback will give
 	watchBuf   bool   // Proxy scenarios (duplex): check that the caller leaves p alone while Write runs
 	bufChanged bool
+	stuckRead  string // a persistent read error has been returned: every Read answers it again
+	stuckWrite string
+	spin       int // calls answered with a persistent error
 }
 
 func newC05Conn(w *c05World, isSrc bool) *c05Conn {
@@ -254,6 +297,16 @@ func (c *c05Conn) ev(s string) {
 func (c *c05Conn) Read(p []byte) (int, error) {
 	if c.quiet && c.isClosed() {
 		return 0, c05Err("closed", "read")
+	}
+	if c.stuckRead != "" {
+		if c.spin++; c.spin > c05SpinLimit {
+			panic(c05Hang{fmt.Sprintf("Read has answered %q %d times in a row and is still being called", c05Err(c.stuckRead, "read").Error(), c.spin)})
+		}
+		c.ev("r0e")
+		c.w.mu.Lock()
+		c.readErrs++
+		c.w.mu.Unlock()
+		return 0, c05Err(c.stuckRead, "read")
 	}
 	if c.ri >= len(c.reads) {
 		c.ev("r0e")
@@ -295,6 +348,9 @@ func (c *c05Conn) Read(p []byte) (int, error) {
 		d = d[:len(p)]
 	}
 	err := c05Err(r.err, "read")
+	if err != nil && r.sticky {
+		c.stuckRead = r.err
+	}
 	c.w.mu.Lock()
 	c.returned = append(c.returned, d)
 	c.w.lastNr = claimed
@@ -314,6 +370,14 @@ func (c *c05Conn) Write(p []byte) (int, error) {
 	if c.quiet && c.isClosed() {
 		return 0, c05Err("closed", "write")
 	}
+	if c.stuckWrite != "" {
+		if c.spin++; c.spin > c05SpinLimit {
+			panic(c05Hang{fmt.Sprintf("Write has answered %q %d times in a row and is still being called", c05Err(c.stuckWrite, "write").Error(), c.spin)})
+		}
+		c.writeFault = true
+		c.ev(fmt.Sprintf("w%d/0e", len(p)))
+		return 0, c05Err(c.stuckWrite, "write")
+	}
 	accept, code := 32*1024, "-"
 	if c.failAt >= 0 {
 		c.w.mu.Lock()
@@ -324,6 +388,9 @@ func (c *c05Conn) Write(p []byte) (int, error) {
 		}
 	} else if c.wi < len(c.writes) {
 		accept, code = c.writes[c.wi].accept, c.writes[c.wi].err
+		if c.writes[c.wi].sticky && code != "-" {
+			c.stuckWrite = code
+		}
 		c.wi++
 	}
 	n := accept
@@ -472,16 +539,29 @@ func runC05(out *vlib.Out, s *c05Script) string {
 	var wg sync.WaitGroup
 	wg.Add(1)
 	base := runtime.NumGoroutine()
-	panicked := ""
+	panicked, hung := "", ""
 	func() {
 		defer func() {
 			if r := recover(); r != nil {
+				if h, ok := r.(c05Hang); ok {
+					hung = h.what
+					return
+				}
 				panicked = fmt.Sprint(r)
 			}
 		}()
 		halfPipe(src, dst, &wg, logger, c05Tag(s.up), stats)
 	}()
 	fail := func(kind, what string) { out.OracleFail(c05Sig(kind), what, s.line()) }
+	if hung != "" {
+		// the watchdog of the scripted connection stopped a direction that would never have returned: a
+		// connection that fails every call (a deadline that has passed, a broken socket) must end the
+		// direction at the first failure
+		out.Checked()
+		fail("hang", "halfPipe does not return, nothing is torn down: "+hung)
+		c05WaitGoroutines(base)
+		return "hang"
+	}
 	if panicked != "" {
 		fail("panic", "halfPipe panicked: "+panicked)
 		return "panic"
@@ -944,7 +1024,7 @@ func runC05Proxy(out *vlib.Out, p *c05Proxy) (string, string) {
 					acc = room
 				}
 				room -= acc
-				down.writes = append(down.writes, c05Write{acc, "-"})
+				down.writes = append(down.writes, c05Write{accept: acc, err: "-"})
 			}
 		}
 		down.reads = append(down.reads, c05Read{err: "eof"})
@@ -1044,15 +1124,16 @@ func c05Enumerate(out *vlib.Out, maxR, maxW, maxDl int) {
 				ctr := k
 				// the alphabet names one error per class; the members of each class of generalizeErr (the
 				// ones it maps to nil, the ones it replaces by a sentinel) are cycled through by case number
+				// every other script: the errors persist (the connection goes on failing)
 				for j, r := range rs {
-					s.reads = append(s.reads, c05Read{data: c05Data(&ctr, r.n), err: c05Rotate(r.err, k/3+j)})
+					s.reads = append(s.reads, c05Read{data: c05Data(&ctr, r.n), err: c05Rotate(r.err, k/3+j), sticky: r.err != "-" && (k/2)%2 == 1})
 				}
 				for j, w := range ws {
 					acc := 32 * 1024
 					if w.short > 0 {
 						acc = w.short - 1
 					}
-					s.writes = append(s.writes, c05Write{acc, c05Rotate(w.err, k/3+j)})
+					s.writes = append(s.writes, c05Write{acc, c05Rotate(w.err, k/3+j), w.err != "-" && (k/4)%2 == 1})
 				}
 				// dl = position of the failing deadline call (-1: none). Three flavours, cycled: plain
 				// connections; obfs4-style ones (every SetDeadline unsupported, read-deadline fallback
@@ -1085,7 +1166,12 @@ func c05Enumerate(out *vlib.Out, maxR, maxW, maxDl int) {
 	}
 }
 
-var c05Classes = [][]string{{"eof", "closed", "epipe"}, {"rst", "refused", "aborted", "unreach"}}
+var c05Classes = [][]string{{"eof", "closed", "epipe"}, {"rst", "refused", "aborted", "unreach"},
+	// what generalizeErr maps to "timeout": members differ in type and in what Temporary() answers
+	{"timeout", "dlx", "eagain", "etimedout", "net.tt", "net.tf"},
+	// errors outside every class, recorded by their text: Timeout() false, Temporary() true / false
+	{c05Other(0), "eintr", "net.ft", "net.ff", c05Other(3)},
+	{c05Other(2), "net.ff", "eintr", c05Other(4), "net.ft"}}
 
 // c05Rotate replaces an error code by the i-th member of its class (codes outside the classes stay).
 func c05Rotate(code string, i int) string {
@@ -1099,9 +1185,10 @@ func c05Rotate(code string, i int) string {
 
 func c05Random(r *vlib.Rand) *c05Script {
 	s := &c05Script{up: r.Bool(), srcClose: "-", dstClose: "-"}
-	errs := []string{"eof", "closed", "epipe", "rst", "refused", "aborted", "unreach", "timeout", "short"}
+	errs := []string{"eof", "closed", "epipe", "rst", "refused", "aborted", "unreach", "timeout", "short",
+		"dlx", "eagain", "etimedout", "net.tt", "net.tf", "eintr", "net.ft", "net.ff"}
 	pickErr := func() string {
-		if r.Chance(1, 4) {
+		if r.Chance(1, 5) {
 			return c05Other(r.Intn(6))
 		}
 		return errs[r.Intn(len(errs))]
@@ -1122,21 +1209,24 @@ func c05Random(r *vlib.Rand) *c05Script {
 		rd := c05Read{data: r.Bytes(sz), err: "-"}
 		if r.Chance(1, n+10) {
 			rd.err = pickErr()
+			rd.sticky = r.Chance(1, 3)
 		}
 		s.reads = append(s.reads, rd)
 	}
 	if r.Chance(2, 3) { // make the stream end with an indication, often together with data
 		s.reads[len(s.reads)-1].err = pickErr()
+		s.reads[len(s.reads)-1].sticky = r.Chance(1, 2)
 	}
 	if r.Chance(1, 2) {
 		m := r.Range(1, n)
 		for i := 0; i < m; i++ {
-			w := c05Write{32 * 1024, "-"}
+			w := c05Write{accept: 32 * 1024, err: "-"}
 			if r.Chance(1, n+5) {
 				w.accept = r.Intn(17)
 			}
 			if r.Chance(1, n+8) {
 				w.err = pickErr()
+				w.sticky = r.Chance(1, 3)
 				if r.Bool() {
 					w.accept = r.Intn(17)
 				}
@@ -1173,6 +1263,16 @@ func c05Random(r *vlib.Rand) *c05Script {
 
 func c05Hist(out *vlib.Out, s *c05Script, ans string) {
 	for _, r := range s.reads {
+		if r.err != "-" {
+			kind := r.err
+			if strings.HasPrefix(kind, "o.") {
+				kind = "other-text"
+			}
+			out.Count("read-error:" + kind)
+			if r.sticky {
+				out.Count("read-error:persistent")
+			}
+		}
 		switch {
 		case r.err != "-" && len(r.data) > 0:
 			out.Count("read:data+err")
@@ -1185,6 +1285,9 @@ func c05Hist(out *vlib.Out, s *c05Script, ans string) {
 		}
 	}
 	for _, w := range s.writes {
+		if w.err != "-" && w.sticky {
+			out.Count("write-error:persistent")
+		}
 		switch {
 		case w.err != "-":
 			out.Count("write:err")
@@ -1206,6 +1309,10 @@ func c05Hist(out *vlib.Out, s *c05Script, ans string) {
 	}
 	if s.srcClose != "-" || s.dstClose != "-" {
 		out.Count("close:err")
+	}
+	if ans == "hang" || ans == "panic" {
+		out.Count("exit:" + ans)
+		return
 	}
 	evs := strings.Split(strings.TrimPrefix(strings.SplitN(ans, "|", 2)[0], "T:"), ",")
 	last := evs[len(evs)-1]
@@ -1231,11 +1338,11 @@ func c05Corpus() []*c05Script {
 		{up: true, reads: []c05Read{{data: b("only"), err: "timeout"}}, srcClose: "-", dstClose: "-"},
 		{up: true, reads: []c05Read{{data: b("x"), err: c05Other(0)}}, srcClose: "-", dstClose: "-"},
 		// data with an error AND a failing write: the write error is the one recorded
-		{up: true, reads: []c05Read{{data: b("abcdef"), err: "rst"}}, writes: []c05Write{{3, "epipe"}}, srcClose: "-", dstClose: "-"},
-		{up: false, reads: []c05Read{{data: b("abcdef"), err: "eof"}}, writes: []c05Write{{3, "-"}}, srcClose: "-", dstClose: "-"},
+		{up: true, reads: []c05Read{{data: b("abcdef"), err: "rst"}}, writes: []c05Write{{accept: 3, err: "epipe"}}, srcClose: "-", dstClose: "-"},
+		{up: false, reads: []c05Read{{data: b("abcdef"), err: "eof"}}, writes: []c05Write{{accept: 3, err: "-"}}, srcClose: "-", dstClose: "-"},
 		// write returns n > 0 together with an error; short write; zero-byte write
-		{up: true, reads: []c05Read{{data: b("abcdef"), err: "-"}, {data: b("gh"), err: "-"}}, writes: []c05Write{{full, "-"}, {1, "rst"}}, srcClose: "-", dstClose: "-"},
-		{up: false, reads: []c05Read{{data: b("abcdef"), err: "-"}}, writes: []c05Write{{0, "-"}}, srcClose: "-", dstClose: "-"},
+		{up: true, reads: []c05Read{{data: b("abcdef"), err: "-"}, {data: b("gh"), err: "-"}}, writes: []c05Write{{accept: full, err: "-"}, {accept: 1, err: "rst"}}, srcClose: "-", dstClose: "-"},
+		{up: false, reads: []c05Read{{data: b("abcdef"), err: "-"}}, writes: []c05Write{{accept: 0, err: "-"}}, srcClose: "-", dstClose: "-"},
 		// SetDeadline failures at each of the first positions
 		{up: true, reads: []c05Read{{data: b("ab"), err: "-"}}, dls: []string{"0"}, srcClose: "-", dstClose: "-"},
 		{up: true, reads: []c05Read{{data: b("ab"), err: "-"}}, dls: []string{"1", "0"}, srcClose: "-", dstClose: "-"},
@@ -1249,12 +1356,33 @@ func c05Corpus() []*c05Script {
 		{up: true, reads: []c05Read{{data: b("ab"), err: "rst"}}, srcClose: "timeout", dstClose: "timeout"},
 		{up: false, reads: []c05Read{{data: b("ab"), err: "rst"}}, srcClose: "timeout", dstClose: "epipe"},
 		{up: true, reads: []c05Read{{data: b("ab"), err: "rst"}}, srcClose: "refused", dstClose: "aborted"},
-		{up: false, reads: []c05Read{{data: b("ab"), err: "-"}}, writes: []c05Write{{1, "-"}}, srcClose: c05Other(5), dstClose: "timeout"},
+		{up: false, reads: []c05Read{{data: b("ab"), err: "-"}}, writes: []c05Write{{accept: 1, err: "-"}}, srcClose: c05Other(5), dstClose: "timeout"},
 		{up: false, reads: nil, srcClose: "unreach", dstClose: "unreach"},
+		// an idle connection whose deadline has passed: every Read answers the deadline error until somebody
+		// moves the deadline — in each shape the error comes in; the direction must end at the first one
+		{up: true, reads: []c05Read{{data: b("ab"), err: "-"}, {err: "timeout", sticky: true}}, srcClose: "-", dstClose: "-"},
+		{up: false, reads: []c05Read{{err: "dlx", sticky: true}}, srcClose: "-", dstClose: "-"},
+		{up: true, reads: []c05Read{{err: "net.tt", sticky: true}}, srcClose: "-", dstClose: "-"},
+		{up: false, reads: []c05Read{{data: b("ab"), err: "-"}, {err: "net.tf", sticky: true}}, srcClose: "-", dstClose: "-"},
+		// a socket that answers EAGAIN / EINTR / ETIMEDOUT for ever, with and without bytes the first time
+		{up: true, reads: []c05Read{{err: "eagain", sticky: true}}, srcClose: "-", dstClose: "-"},
+		{up: false, reads: []c05Read{{data: b("xyz"), err: "eintr", sticky: true}}, srcClose: "-", dstClose: "-"},
+		{up: true, reads: []c05Read{{data: b("q"), err: "-"}, {err: "etimedout", sticky: true}}, srcClose: "-", dstClose: "-"},
+		{up: false, reads: []c05Read{{err: "net.ft", sticky: true}}, srcClose: "-", dstClose: "-"},
+		{up: true, reads: []c05Read{{err: "net.ff", sticky: true}}, srcClose: "-", dstClose: "-"},
+		{up: true, reads: []c05Read{{err: "rst", sticky: true}}, srcClose: "rst", dstClose: "-"},
+		// the same errors once only (the connection would deliver more afterwards): the direction ends all the same
+		{up: true, reads: []c05Read{{err: "eintr"}, {data: b("later"), err: "-"}}, srcClose: "-", dstClose: "-"},
+		{up: false, reads: []c05Read{{data: b("a"), err: "eagain"}, {data: b("later"), err: "eof"}}, srcClose: "-", dstClose: "-"},
+		{up: true, reads: []c05Read{{err: "net.ft"}, {data: b("later"), err: "-"}}, srcClose: "-", dstClose: "-"},
+		// a destination that fails every Write
+		{up: true, reads: []c05Read{{data: b("abc"), err: "-"}, {data: b("def"), err: "-"}}, writes: []c05Write{{accept: 0, err: "eagain", sticky: true}}, srcClose: "-", dstClose: "-"},
+		{up: false, reads: []c05Read{{data: b("abc"), err: "-"}}, writes: []c05Write{{accept: 1, err: "eintr", sticky: true}}, srcClose: "-", dstClose: "-"},
+		{up: true, reads: []c05Read{{data: b("abc"), err: "-"}}, writes: []c05Write{{accept: 32 * 1024, err: "-"}, {accept: 0, err: "net.tt", sticky: true}}, srcClose: "-", dstClose: "-"},
 		// zero-length reads without error keep the loop going
 		{up: true, reads: []c05Read{{err: "-"}, {err: "-"}, {data: b("z"), err: "-"}, {err: "eof"}}, srcClose: "-", dstClose: "-"},
 		// full buffer, one byte less accepted
-		{up: true, reads: []c05Read{{data: c05Pattern(full, 1), err: "-"}, {data: c05Pattern(full, 2), err: "eof"}}, writes: []c05Write{{full, "-"}, {full - 1, "-"}}, srcClose: "-", dstClose: "-"},
+		{up: true, reads: []c05Read{{data: c05Pattern(full, 1), err: "-"}, {data: c05Pattern(full, 2), err: "eof"}}, writes: []c05Write{{accept: full, err: "-"}, {accept: full - 1, err: "-"}}, srcClose: "-", dstClose: "-"},
 		// a reader that breaks the io.Reader contract (claims more than the buffer holds)
 		{up: true, reads: []c05Read{{data: c05Pattern(full, 3), claim: full + 37, err: "-"}}, srcClose: "-", dstClose: "-"},
 		{up: false, reads: []c05Read{{data: c05Pattern(full, 4), claim: full + 5, err: c05Other(4)}}, srcClose: "-", dstClose: "-"},
